@@ -313,7 +313,8 @@ type wk struct {
 	cNsc      *model.NamespaceConfig
 	cFeasible bool
 
-	seen map[string]struct{}
+	seen     map[string]struct{}
+	realAlgo bool
 
 	// balancer side
 	statusRes resources.StatusResource
@@ -340,6 +341,9 @@ func (w *wk) prioOf(id string) int {
 }
 
 func (w *wk) algo(params *model.RatioParams) *model.Ratio {
+	if w.realAlgo {
+		return single.DefaultShardsRank(params)
+	}
 	return reorder(single.DefaultShardsRank(params), w.prioOf, w.shardDesc)
 }
 
@@ -814,7 +818,7 @@ func applySwaps(actions []*balancer.SwapNodeAction, cur map[int64]model.ShardMet
 			out = append(out, viol{k, desc + ": `From` is not a member, replaceInList appends `To` and the ensemble grows"})
 			bad = true
 		}
-		if contains(smd.Ensemble, to) {
+		if from != "" && contains(smd.Ensemble, to) {
 			k := "swap:to-already-in-ensemble"
 			if second {
 				k += ":later-swap-of-same-shard-in-round"
@@ -1002,7 +1006,7 @@ func tieOrders(nodes []int, shards [][]int, cap int) (orders [][]int, bounded bo
 	return orders, true
 }
 
-func partD(d *driver, maxServers int, tieCap int, labelsFor func(n int, pol string) []labelCase) {
+func partD(d *driver, maxServers int, scope func(n int, pol string) (cases []labelCase, tieCap int)) {
 	for n := 1; n <= maxServers; n++ {
 		for _, removed := range []bool{false, true} {
 			nodes := rangeInts(n)
@@ -1016,7 +1020,10 @@ func partD(d *driver, maxServers int, tieCap int, labelsFor func(n int, pol stri
 				}
 				ms := multisets(len(ens), 3)
 				for _, pol := range polNames {
-					cases := labelsFor(n, pol)
+					cases, tieCap := scope(n, pol)
+					if len(cases) == 0 {
+						continue
+					}
 					const chunk = 16
 					nb := (len(ms) + chunk - 1) / chunk
 					d.runBlocks(nb*len(cases), func(w *wk, b int) {
@@ -1050,6 +1057,34 @@ func partD(d *driver, maxServers int, tieCap int, labelsFor func(n int, pol stri
 	}
 }
 
+// part F: the minimal failing statuses with the UNMODIFIED load-ratio algorithm (real map-iteration
+// tie order), repeated: confirms that the violations do not depend on the tie-order seam.
+func partF(run *ev.Run, reps int) {
+	inputs := []balInput{
+		{Part: "balancer", N: 2, Zone: []int{0, 0}, Rack: []int{0, 0}, Policy: "none", RF: 2, Shards: [][]int{{0, 1}, {0, 5}}},
+		{Part: "balancer", N: 1, Zone: []int{0}, Rack: []int{0}, Policy: "none", RF: 1, Shards: [][]int{{5}, {5}}},
+		{Part: "balancer", N: 3, Zone: []int{0, 1, 1}, Rack: []int{1, 1, 2}, Policy: "ZR", RF: 2, Shards: [][]int{{0, 2}, {0, 5}}},
+		{Part: "balancer", N: 4, Zone: []int{0, 0, 0, 0}, Rack: []int{0, 0, 0, 0}, Policy: "none", RF: 3, Shards: [][]int{{0, 1, 2}, {0, 1, 5}, {0, 2, 5}}},
+	}
+	w := newWk()
+	for i, in := range inputs {
+		bad := 0
+		for r := 0; r < reps; r++ {
+			w.realAlgo = true
+			_, vs := w.runBal(in)
+			w.realAlgo = false
+			if len(vs) > 0 {
+				bad++
+				for _, v := range vs {
+					agg.add(v.key, "balancer-round", v.msg+fmt.Sprintf(" [unmodified DefaultShardsRank; n=%d policy=%s rf=%d shards=%v]", in.N, in.Policy, in.RF, in.Shards), in, in.N*100+in.RF*10+len(in.Shards))
+				}
+			}
+		}
+		run.Add(fmt.Sprintf("partF_input%d_rounds_with_violation_of_%d_real_runs", i+1, reps), int64(bad))
+		run.Add("partF_real_algorithm_rounds", int64(reps))
+	}
+}
+
 // ---------------------------------------------------------------- part E: small E1 search
 
 var e1Servers = 5
@@ -1075,6 +1110,7 @@ type e1inst struct {
 	hist    []int
 	level   *levelMark
 	skip    bool
+	tainted bool
 }
 
 type levelMark struct{ max atomic.Int32 }
@@ -1120,17 +1156,30 @@ func (in *e1inst) config() model.ClusterConfig {
 			cfg.Namespaces = append(cfg.Namespaces, model.NamespaceConfig{Name: n.name, InitialShardCount: n.shards, ReplicationFactor: n.rf, Policies: pols[n.pol]})
 		}
 	}
-	md := mkMetadata(maxN, e1Zone, e1Rack)
+	md := in.metadata()
 	for i := 0; i < maxN; i++ {
 		if in.servers[i] {
 			cfg.Servers = append(cfg.Servers, srvVal[i])
-			cfg.ServerMetadata[srvID[i]] = md[srvID[i]]
+			if m, ok := md[srvID[i]]; ok {
+				cfg.ServerMetadata[srvID[i]] = m
+			}
 		}
 	}
 	return cfg
 }
 
 func (in *e1inst) Close() { in.vc.Close(); in.bal.Close() }
+
+// metadata of the servers that are in the config (labels of a removed server are not known to the coordinator)
+func (in *e1inst) metadata() map[string]model.ServerMetadata {
+	all := mkMetadata(maxN, e1Zone, e1Rack)
+	for i := 0; i < maxN; i++ {
+		if !in.servers[i] {
+			delete(all, srvID[i])
+		}
+	}
+	return all
+}
 
 func (in *e1inst) violate(v viol) {
 	if in.skip {
@@ -1179,7 +1228,10 @@ func (in *e1inst) Step(op int) (bool, *ev.Violation) {
 			nsrv++
 		}
 	}
-	md := mkMetadata(maxN, e1Zone, e1Rack)
+	if in.tainted {
+		return false, nil // a violating state is reported once and not explored further
+	}
+	md := in.metadata()
 	switch {
 	case op < 4:
 		n := e1Namespaces[op]
@@ -1239,6 +1291,9 @@ func (in *e1inst) Step(op int) (bool, *ev.Violation) {
 	vs := applySwapsE1(round.Actions, cur, rfOf, nIn, md, polOf)
 	for _, v := range vs {
 		in.violate(v)
+	}
+	if len(vs) > 0 {
+		in.tainted = true
 	}
 	// the shard controllers persist the new ensembles
 	for _, a := range round.Actions {
@@ -1300,7 +1355,7 @@ func (in *e1inst) apply(md map[string]model.ServerMetadata) bool {
 
 func (in *e1inst) Key() string {
 	var b strings.Builder
-	fmt.Fprintf(&b, "%v|", in.servers)
+	fmt.Fprintf(&b, "%v|%v|", in.servers, in.tainted)
 	for _, n := range e1Namespaces {
 		fmt.Fprintf(&b, "%v,", in.nss[n.name])
 	}
@@ -1350,63 +1405,88 @@ func main() {
 	}
 	start := time.Now()
 	d := &driver{deadline: start.Add(budget)}
+	parts := os.Getenv("VERIF_PARTS")
+	if parts == "" {
+		parts = "ABCDE"
+	}
+	if parts != "ABCDE" {
+		run.NotExhaustive("only parts " + parts + " were run (VERIF_PARTS)")
+	}
+	has := func(p string) bool { return strings.Contains(parts, p) }
 
 	// A: quick = one representative per renaming of label values; thorough = every assignment (no symmetry assumption)
-	partA(d, maxN, func(n int, pol string) bool { return thorough || n < maxN || pol != "ZR" }, true)
+	partA(d, maxN, func(n int, pol string) bool { return has("A") && (thorough || n < maxN || pol != "ZR") }, true)
 	run.Add("partA_selector_evaluations", d.evals.Swap(0))
 	reps := 2
 	if thorough {
 		reps = 8
 	}
-	partB(d, maxN, reps, func(n int, pol string) bool { return thorough || n < maxN || pol != "ZR" })
+	partB(d, maxN, reps, func(n int, pol string) bool { return has("B") && (thorough || n < maxN || pol != "ZR") })
 	run.Add("partB_selector_evaluations", d.evals.Swap(0))
 	cN := 4
 	if thorough {
 		cN = 5
 	}
-	partC(d, cN)
+	if has("C") {
+		partC(d, cN)
+	}
 	run.Add("partC_selector_evaluations", d.evals.Swap(0))
 
 	// D: balancer rounds
-	tieCap := 24
-	if thorough {
-		tieCap = 720
-	}
-	partD(d, maxN, tieCap, func(n int, pol string) []labelCase {
+	partD(d, maxN, func(n int, pol string) ([]labelCase, int) {
+		if !has("D") {
+			return nil, 0
+		}
 		zero := make([]int, n)
-		switch pol {
-		case "none":
-			return []labelCase{{n, zero, zero}}
-		case "Z":
-			var out []labelCase
-			for _, z := range labelAssignments(n, 3, true) {
-				if !thorough && n == maxN && hasZero(z) {
-					continue
-				}
-				out = append(out, labelCase{n, z, zero})
-			}
-			return out
-		default:
-			var out []labelCase
-			racks := [][]int{}
+		racks := func() [][]int {
 			a, b := make([]int, n), make([]int, n)
 			for i := 0; i < n; i++ {
 				a[i] = 1 + i%2
 				b[i] = 1 + (i/2)%2
 			}
-			racks = append(racks, a, b)
-			for _, z := range labelAssignments(n, 3, true) {
-				if hasZero(z) && (n >= 4 || !thorough) {
-					continue
-				}
-				if !thorough && n == maxN {
-					continue
-				}
-				for _, r := range racks {
+			return [][]int{a, b}
+		}
+		var zones [][]int // canonical zone assignments; with absent values only for small n
+		for _, z := range labelAssignments(n, 3, true) {
+			if hasZero(z) && n > 3 {
+				continue
+			}
+			zones = append(zones, z)
+		}
+		tieCap := 24
+		switch {
+		case thorough && n <= 4:
+			tieCap = 720
+		case thorough:
+			tieCap = 24
+		case n == 4:
+			tieCap = 6
+		case n == 5:
+			tieCap = 2
+		}
+		switch pol {
+		case "none":
+			return []labelCase{{n, zero, zero}}, tieCap
+		case "Z":
+			if n == maxN || (!thorough && n == 4) {
+				return nil, 0
+			}
+			var out []labelCase
+			for _, z := range zones {
+				out = append(out, labelCase{n, z, zero})
+			}
+			return out, tieCap
+		default:
+			if n > 4 || (!thorough && n == 4) {
+				return nil, 0
+			}
+			var out []labelCase
+			for _, z := range zones {
+				for _, r := range racks() {
 					out = append(out, labelCase{n, z, r})
 				}
 			}
-			return out
+			return out, tieCap
 		}
 	})
 	run.Add("partD_balancer_evaluations", d.evals.Swap(0))
@@ -1414,6 +1494,13 @@ func main() {
 		run.NotExhaustive("input enumeration cut by the deadline")
 	}
 
+	if has("D") {
+		freps := 200
+		if thorough {
+			freps = 2000
+		}
+		partF(run, freps)
+	}
 	// E: small E1
 	depth := 4
 	if thorough {
@@ -1424,6 +1511,9 @@ func main() {
 	}
 	var totalStates int64
 	for _, initial := range []int{4, 3} {
+		if !has("E") {
+			break
+		}
 		spec := e1Spec(initial, depth)
 		spec.Deadline = time.Now().Add(budget/4 + time.Until(d.deadline)/2)
 		res := seqx.Explore(spec)
@@ -1431,7 +1521,7 @@ func main() {
 		totalStates += res.States
 	}
 
-	if thorough {
+	if thorough && has("A") {
 		// every label assignment, no symmetry assumption; the biggest block (n=5, zone+rack) last
 		d.deadline = start.Add(budget + 3*time.Minute)
 		partA(d, maxN, func(n int, pol string) bool { return n < maxN || pol != "ZR" }, false)
@@ -1450,7 +1540,7 @@ func main() {
 	}
 	cnt.mu.Unlock()
 	run.Coverage["observations_outside_the_property"] = obs
-	run.Add("evaluations", run.Get("partA_selector_evaluations")+run.Get("partB_selector_evaluations")+run.Get("partC_selector_evaluations")+run.Get("partD_balancer_evaluations"))
+	run.Add("evaluations", run.Get("partF_real_algorithm_rounds")+run.Get("partA_selector_evaluations")+run.Get("partB_selector_evaluations")+run.Get("partC_selector_evaluations")+run.Get("partD_balancer_evaluations"))
 	distinctMu.Lock()
 	for k := range distinctSet {
 		run.Distinct(k)
